@@ -411,9 +411,19 @@ func (f *frame) intrinsic(n *node, callee *ssa.Function, args []Val) (Val, bool)
 		}
 		pt := cl.Fn.Params[0].Type()
 		cs := x.comps(pt)
+		sk := x.skolemNext
+		x.skolemNext = nil
+		if sk != nil && (len(cs) != 1 || g.InQuant()) {
+			sk = nil
+		}
 		g.n++
 		bv := fmt.Sprintf("q!%d", g.n)
-		g.PushScope()
+		if sk != nil {
+			bv = g.Const("forall."+cl.Fn.Params[0].Name(), cs[0].sort)
+			sk.name, sk.sort, sk.v = bv, cs[0].sort, Val{T: pt, C: []string{bv}}
+		} else {
+			g.PushScope()
+		}
 		sub := &frame{x: x, fn: cl.Fn, spec: true, paramVals: map[*ssa.Parameter]Val{}, freeVals: map[*ssa.FreeVar]Val{}}
 		sub.paramVals[cl.Fn.Params[0]] = Val{T: pt, C: []string{bv}}
 		for i, fv := range cl.Fn.FreeVars {
@@ -428,6 +438,9 @@ func (f *frame) intrinsic(n *node, callee *ssa.Function, args []Val) (Val, bool)
 			for i := len(sub.rets) - 2; i >= 0; i-- {
 				body = ite(sub.rets[i].reach, sub.rets[i].val.C[0], body)
 			}
+		}
+		if sk != nil {
+			return Val{T: types.Typ[types.Bool], C: []string{g.Fresh(SortBool, body)}}, true
 		}
 		inner := g.PopScope(body)
 		t := g.Fresh(SortBool, "(forall (("+bv+" "+cs[0].sort+")) "+inner+")")
